@@ -22,6 +22,7 @@ from __future__ import annotations
 
 import hashlib
 import json
+import re
 
 import fpy2 as fp
 from fpy2 import strategies as S
@@ -280,6 +281,8 @@ def check_config(res: Result, fn, src, cfg, inputs, orig, meta_feats, sel_trips,
         # diagnosed once per (program, configuration); further failing inputs of the same pair share the signature
         # unless the symptom class differs
         sym = v[0] if v[0] == 'differs' else v[1]
+        if 'elim_iter' in lab:
+            diagnosed.pop(sym, None)
         if sym not in diagnosed:
             diagnosed[sym] = fail_bucket(fn, src, cfg, args, ctx, o, v, meta_feats, length, k, kval, resolved_trips(sel_trips, length))
         b = diagnosed[sym]
@@ -318,7 +321,106 @@ def fail_bucket(fn, src, cfg, args, ctx, o, v, feats, length, k, kval, trips=Non
     if cause is not None:
         kind = cfg['t'] if cfg['t'] != 'seq' else label(cfg)
         return f'{kind}/{cause}'
+    if cfg['t'] == 'elim_iter':
+        # the statement path and the comprehension path are separate code: say which one disagrees
+        site = elim_site_cause(fn, cfg, args, ctx, o)
+        if site is not None:
+            return f'elim_iter/{site}'
     return bucket_of(cfg, feats, v, length, k, trips)
+
+
+class _Writes:
+    """Our own scan (independent of the transform's): does a block / expression store into a list, itself or in an
+    FPy function it calls (transitively)?"""
+
+    @staticmethod
+    def scan(node, is_block):
+        from fpy2.ast.visitor import DefaultVisitor
+        found = []
+        seen = set()
+
+        class V(DefaultVisitor):
+            def _visit_indexed_assign(self, stmt, ctx):
+                found.append('store')
+                return super()._visit_indexed_assign(stmt, ctx)
+
+            def _visit_call(self, e, ctx):
+                callee = getattr(getattr(e, 'fn', None), 'ast', None)
+                body = getattr(callee, 'body', None)
+                if isinstance(body, A.StmtBlock) and id(callee) not in seen:
+                    seen.add(id(callee))
+                    self._visit_block(body, None)
+                return super()._visit_call(e, ctx)
+
+        v = V()
+        if is_block:
+            v._visit_block(node, None)
+        else:
+            v._visit_expr(node, None)
+        return bool(found)
+
+
+def derived_sites_write(func_ast):
+    """(some zip/enumerate `for` loop has a body that may store, some comprehension with a zip/enumerate stage has
+    an element / later iterable that may store)"""
+    from fpy2.ast.visitor import DefaultVisitor
+    res = {'for': False, 'comp': False}
+
+    class V(DefaultVisitor):
+        def _visit_for(self, stmt, ctx):
+            if isinstance(stmt.iterable, (A.Zip, A.Enumerate)) and _Writes.scan(stmt.body, True):
+                res['for'] = True
+            return super()._visit_for(stmt, ctx)
+
+        def _visit_list_comp(self, e, ctx):
+            if any(isinstance(it, (A.Zip, A.Enumerate)) for it in e.iterables):
+                if _Writes.scan(e.elt, False) or any(_Writes.scan(it, False) for it in e.iterables[1:]):
+                    res['comp'] = True
+            return super()._visit_list_comp(e, ctx)
+
+    V()._visit_function(func_ast, None)
+    return res['for'], res['comp']
+
+
+def elim_variant(f, cfg, part):
+    """elim_iter restricted to one kind of site: part='for' rewrites only `for` loops, 'comp' only comprehension
+    stages.  Built from the transform's own visitor classes with the other path switched back to the default walk;
+    a diagnosis aid only (raises if those internals change, and the caller falls back)."""
+    from fpy2.analysis import DefineUse
+    from fpy2.ast.visitor import DefaultTransformVisitor
+    from fpy2.transform import enumerate_elim, zip_elim
+    ast = f.ast
+    for enabled, base in ((cfg['enum'], enumerate_elim._EnumerateElimInstance), (cfg['zip'], zip_elim._ZipElimInstance)):
+        if not enabled:
+            continue
+        if part == 'for':
+            class V(base):
+                def _visit_list_comp(self, e, ctx):
+                    return DefaultTransformVisitor._visit_list_comp(self, e, ctx)
+        else:
+            class V(base):
+                def _visit_for(self, stmt, ctx):
+                    return DefaultTransformVisitor._visit_for(self, stmt, ctx)
+        ast = V(ast, DefineUse.analyze(ast)).apply()
+    return f.with_ast(ast)
+
+
+def elim_site_cause(fn, cfg, args, ctx, o):
+    """Which kind of elim_iter site makes this input disagree, and does that kind of site store into a list?"""
+    try:
+        for_w, comp_w = derived_sites_write(fn.ast)
+        for part, writes in (('for', for_w), ('comp', comp_w)):
+            st = difftest.transform(fn, lambda f: elim_variant(f, cfg, part))
+            if st[0] != 'ok':
+                return None
+            v = difftest.verdict(o, difftest.call(st[1], args, ctx))
+            if isinstance(v, tuple):
+                if part == 'for':
+                    return 'for-loop-body-or-callee-writes' if writes else 'for-loop-rewrite'
+                return 'comprehension-stage-callee-writes' if writes else 'comprehension-stage-rewrite'
+    except Exception:       # diagnosis aid: never a harness error
+        return None
+    return None
 
 
 def still_fails(src, cfg, args, ctx):
@@ -656,6 +758,18 @@ def main(t, n, i, m):
     x = 1 if (any([t[5] > y for y in n]) if len(t) > 5 else False) else 0
     return (b, acc, x)
 ''', [], 0, {'fuse'}, {'name-collision', 'any-all', 'anyall-under-shortcircuit', 'anyall-guarded-fault', 'anyall-in-ifexp-branch'}, 0),
+    ('fuse-guarded-rows', '''
+@fp.fpy
+def main(rows, n, i, m):
+    b = i < len(rows) and all([v > m for v in rows[i]])
+    acc = i >= len(rows) or any([v < m for v in rows[i]])
+    j = len(rows) > 2 and any([v >= 1 for v in rows[2]])
+    t = (len(rows) <= 5 or all([v != m for v in rows[5]])) and (len(n) > 3 and any([v > n[3] for v in rows[0]]))
+    x = 0 <= i < len(rows) < 9 and i < len(rows) and all([m < v for v in rows[i]])
+    y = any([v > m for v in n]) or all([v < m for v in n])
+    return (b, acc, j, t, x, y)
+''', [], 0, {'fuse'}, {'name-collision', 'any-all', 'anyall-under-shortcircuit', 'anyall-guarded-fault', 'anyall-indexed-iterable'}, 0,
+     [('rows', 'LL'), ('n', 'L'), ('i', 'I'), ('m', 'R')]),
     ('fuse-while-cond', '''
 @fp.fpy
 def main(t, n, i, m):
@@ -785,15 +899,15 @@ def template_cfgs(kinds, meta, for_tops, n_top):
 
 
 def run_template(res, seed, ti, variant, tier):
-    name, tmpl, loops, nwhile, kinds, feats, min_a = TEMPLATES[ti]
+    name, tmpl, loops, nwhile, kinds, feats, min_a = TEMPLATES[ti][:7]
+    params = TEMPLATES[ti][7] if len(TEMPLATES[ti]) > 7 else [('t', 'L'), ('n', 'L'), ('i', 'R'), ('m', 'R')]
     ch = progen.RandChooser(h64(seed, 'C08tmpl', ti, variant))
     ctx = TEMPLATE_CTXS[(variant + ti) % len(TEMPLATE_CTXS)]
     kval = 1 + (variant + ti) % 5
-    src = f'K = {kval}\n' + tmpl.replace('{CTX}', ctx).lstrip('\n').replace('def main(t, n, i, m):\n', 'def main(t, n, i, m):\n    kk = K\n')
+    src = f'K = {kval}\n' + re.sub(r'(def main\([^)]*\):\n)', r'\1    kk = K\n', tmpl.replace('{CTX}', ctx).lstrip('\n'), count=1)
     fl = [dict(r, feats=set(), inner_feats=set()) for r in loops]
     wl = [dict(id=i, trip=None, kind='tmpl', feats=set(), inner_feats=set()) for i in range(nwhile)]
     meta = _Meta(fl, wl, kval, min_a, set(feats) | {'template:' + name})
-    params = [('t', 'L'), ('n', 'L'), ('i', 'R'), ('m', 'R')]
     n_in = 2 if tier == 'thorough' else 1
     all_inputs = {n: [(c08_gen.gen_args(ch, params, n), ch.choice(c08_gen.CALLER_CTXS)) for _ in range(n_in)] for n in range(0, 8)}
     lists = {}
